@@ -56,7 +56,6 @@ func (ws *WritingState) ComputeState() *WritingState {
 	copyState.ExperimentStateLabel = ws.ExperimentStateLabel
 	copyState.ExperimentStateLabelUnixNano = ws.ExperimentStateLabelUnixNano
 	copyState.ExternalTriggerFilename = ws.ExternalTriggerFilename
-	copyState.externalTriggerNumberObserved = ws.externalTriggerNumberObserved
 	copyState.WriteLJH22 = ws.WriteLJH22
 	copyState.WriteLJH3 = ws.WriteLJH3
 	copyState.WriteOFF = ws.WriteOFF
